@@ -55,7 +55,11 @@ def gen(rng, facts):
             if d: c.tick(d)
             u = rng.randrange(nt)
             if u != t and rng.random() < 0.7: c.cmds.append(fresh(a_log(u)))
-            if rng.random() < 0.5: c.poll()
+            if rng.random() < 0.5:
+                # a moment later (still inside the grace period of the stalled statement) the backend polls: the other
+                # thread's later statement must wait (a cut-off that is too lenient lets it overtake)
+                if rng.random() < 0.6: c.tick(rng.choice([1, 2, max(1, g // 4)]))
+                c.poll()
             if rng.random() < 0.4:
                 # the stalled statement is enqueued in the middle of the backend's pass, between two queue reads, and time
                 # passes before the next queue is read (a cut-off taken per queue instead of once per pass shows here)
